@@ -250,6 +250,11 @@ func (h *PeerIDAuthHandshakeServer) Run() error {
 			return errors.New("expected token, got challenge")
 		}
 
+		if h.opaque.Hostname != h.Hostname {
+			// like a challenge, a token is only good for the hostname it was issued for
+			return errors.New("bearer token was issued for a different hostname")
+		}
+
 		if nowFn().After(h.opaque.CreatedTime.Add(h.TokenTTL)) {
 			return ErrExpiredToken
 		}
